@@ -80,7 +80,7 @@ def c13grp : Tok String := do
 def c13expire : Tok String := do
   let now ← Tok.int
   let hist ← Tok.list parseHEntry
-  pure (histStr (History.expire hist now))
+  pure (histStr (History.cleanupTick hist now))
 
 def iterStr : Iter → String
   | .timeout => "timeout"
